@@ -70,19 +70,25 @@ Proof.
   - right. rewrite set_thr_nth_neq in E' by exact N. auto.
 Qed.
 
-Lemma remove_nat_in b l x : In x (remove_nat b l) -> In x l /\ x <> b.
+Lemma remove_nat_sub b l x : In x (remove_nat b l) -> In x l.
 Proof.
   induction l as [|y l IH]; cbn; [tauto|].
+  destruct (Nat.eqb_spec y b) as [->|N]; [tauto|]. cbn. intros [->|X]; [tauto|]. right. exact (IH X).
+Qed.
+
+Lemma remove_nat_in b l x : NoDup l -> In x (remove_nat b l) -> In x l /\ x <> b.
+Proof.
+  induction 1 as [|y l Hn Hd IH]; cbn; [tauto|].
   destruct (Nat.eqb_spec y b) as [->|N].
-  - intros X. destruct (IH X). tauto.
+  - intros X. split; [right; exact X|]. intros ->. contradiction.
   - cbn. intros [->|X]; [tauto|]. destruct (IH X). tauto.
 Qed.
 
 Lemma remove_nat_nodup b l : NoDup l -> NoDup (remove_nat b l).
 Proof.
   induction 1 as [|y l Hn Hd IH]; cbn; [constructor|].
-  destruct (Nat.eqb_spec y b) as [->|N]; [exact IH|].
-  constructor; [|exact IH]. intros X. apply remove_nat_in in X. tauto.
+  destruct (Nat.eqb_spec y b) as [->|N]; [exact Hd|].
+  constructor; [|exact IH]. intros X. apply remove_nat_sub in X. contradiction.
 Qed.
 
 Lemma in_pool_in s b : in_pool s b = true -> In b (free s).
@@ -138,6 +144,8 @@ Variable reqs : list op.
 
 Record Inv (s : pst) : Prop := {
   inv_early : early s = false;
+  inv_lenient : lenient s = false;
+  inv_twice : twice s = false;
   inv_nodup : NoDup (free s);
   inv_notfree : forall i o p b, nth_error (thr s) i = Some (o, p) -> holds p = Some b -> ~ In b (free s);
   inv_distinct : forall i j o p o' p' b, i <> j ->
@@ -188,8 +196,10 @@ Lemma inv_same s i o p b p' k' m' l' :
 Proof.
   intros I E Hp Hp' Hm Hl Hok.
   destruct (lin_ext_facts _ _ _ _ _ _ I E Hl) as (L1 & L2 & L3).
-  constructor; unfold mk; cbn [early free thr lin ks mem].
+  constructor; unfold mk; cbn [early lenient twice splice free thr lin ks mem].
   - apply (inv_early _ I).
+  - apply (inv_lenient _ I).
+  - apply (inv_twice _ I).
   - apply (inv_nodup _ I).
   - intros j o' q b' Ej Hq. destruct (set_thr_inv _ _ _ _ _ _ _ _ E Ej) as [(-> & -> & ->)|(N & Ej')].
     + rewrite Hp' in Hq. inversion Hq; subst. eapply (inv_notfree _ I); eauto.
@@ -220,10 +230,12 @@ Proof.
   intros I E Hin Hp'.
   assert (Hh : holds p' = Some b0) by (destruct Hp' as [->| ->]; reflexivity).
   assert (Hok : forall m l, pc_ok m l i o p') by (intros m l; destruct Hp' as [->| ->]; exact Logic.I).
-  constructor; unfold mk; cbn [early free thr lin ks mem].
+  constructor; unfold mk; cbn [early lenient twice splice free thr lin ks mem].
   - apply (inv_early _ I).
+  - apply (inv_lenient _ I).
+  - apply (inv_twice _ I).
   - apply remove_nat_nodup. apply (inv_nodup _ I).
-  - intros j o' q b' Ej Hq X. apply remove_nat_in in X. destruct X as [X1 X2].
+  - intros j o' q b' Ej Hq X. apply (remove_nat_in _ _ _ (inv_nodup _ I)) in X. destruct X as [X1 X2].
     destruct (set_thr_inv _ _ _ _ _ _ _ _ E Ej) as [(-> & -> & ->)|(N & Ej')].
     + rewrite Hh in Hq. inversion Hq; subst. congruence.
     + eapply (inv_notfree _ I); eauto.
@@ -248,8 +260,10 @@ Lemma inv_release s i o b r :
   Inv (mk s (ks s) (b :: free s) (mem s) i (Fin r) (lin s)).
 Proof.
   intros I E.
-  constructor; unfold mk; cbn [early free thr lin ks mem].
+  constructor; unfold mk; cbn [early lenient twice splice free thr lin ks mem].
   - apply (inv_early _ I).
+  - apply (inv_lenient _ I).
+  - apply (inv_twice _ I).
   - constructor; [|apply (inv_nodup _ I)]. eapply (inv_notfree _ I); eauto; reflexivity.
   - intros j o' q b' Ej Hq X.
     destruct (set_thr_inv _ _ _ _ _ _ _ _ E Ej) as [(-> & -> & ->)|(N & Ej')]; [discriminate|].
@@ -271,11 +285,14 @@ Qed.
 
 Lemma inv_scribble s b x :
   Inv s -> In b (free s) ->
-  Inv {| ks := ks s; free := free s; mem := upd_mem (mem s) b x; thr := thr s; lin := lin s; early := early s |}.
+  Inv {| ks := ks s; free := free s; mem := upd_mem (mem s) b x; thr := thr s; lin := lin s; early := early s;
+         lenient := lenient s; twice := twice s; splice := splice s |}.
 Proof.
   intros I Hin.
-  constructor; cbn [early free thr lin ks mem].
+  constructor; cbn [early lenient twice splice free thr lin ks mem].
   - apply (inv_early _ I).
+  - apply (inv_lenient _ I).
+  - apply (inv_twice _ I).
   - apply (inv_nodup _ I).
   - apply (inv_notfree _ I).
   - apply (inv_distinct _ I).
@@ -302,9 +319,11 @@ Proof.
   destruct (nth_error (thr s) i) as [[o p]|] eqn:En; [|discriminate].
   pose proof (inv_pc _ I _ _ _ En) as Hpc.
   pose proof (inv_early _ I) as Hea.
+  pose proof (inv_lenient _ I) as Hle.
+  pose proof (inv_twice _ I) as Htw.
   destruct p as [|b|b c|b c|b e|b|b|b r|r].
   - (* W *)
-    destruct o as [h|h|h d]; (destruct (in_pool s b0) eqn:Ep; [|discriminate]); inversion St; subst;
+    destruct o as [h|h|h d|h d n]; (destruct (in_pool s b0) eqn:Ep; [|discriminate]); inversion St; subst;
       (eapply inv_acquire; [exact I|exact En|apply in_pool_in; exact Ep|auto]).
   - (* GHave *)
     assert (G : forall h, (o = Get h \/ o = Head h) ->
@@ -328,7 +347,7 @@ Proof.
         + reflexivity.
         + right. eexists. split; [reflexivity|exact Hh].
         + cbn [pc_ok]. left; reflexivity. }
-    destruct o as [h|h|h d]; [apply (G h); auto|apply (G h); auto|discriminate].
+    destruct o as [h|h|h d|h d n]; [apply (G h); auto|apply (G h); auto|discriminate|discriminate].
   - (* GFilled *)
     assert (St' : Some (mk s (ks s) (free s) (mem s) i (Resp b (get_resp c (mem s b))) (lin s)) = Some s')
       by (destruct o; exact St).
@@ -343,12 +362,20 @@ Proof.
     eapply inv_same; [exact I|exact En|reflexivity|reflexivity|reflexivity|left; auto|].
     exact Hpc.
   - (* PHave *)
-    destruct o as [h|h|h d]; try discriminate. inversion St; subst.
-    eapply inv_same; [exact I|exact En|reflexivity|reflexivity| |left; auto|].
-    + intros b' N. apply upd_mem_other; exact N.
-    + cbn [pc_ok]. intros h' d' X. inversion X; subst. apply upd_mem_same.
+    destruct o as [h|h|h d|h d n]; try discriminate.
+    + inversion St; subst.
+      eapply inv_same; [exact I|exact En|reflexivity|reflexivity| |left; auto|].
+      * intros b' N. apply upd_mem_other; exact N.
+      * cbn [pc_ok]. intros h' d' X. inversion X; subst. apply upd_mem_same.
+    + (* the body does not arrive: the sequential handler's answer, buffer kept until the release step *)
+      rewrite Hle, Htw in St. inversion St; subst.
+      eapply inv_same; [exact I|exact En|reflexivity|reflexivity| | |].
+      * intros b' N. apply upd_mem_other; exact N.
+      * right. eexists. split; [reflexivity|]. reflexivity.
+      * cbn [pc_ok]. left; reflexivity.
   - (* PRead *)
-    destruct o as [h|h|h d]; try discriminate.
+    destruct o as [h|h|h d|h d n]; try discriminate.
+    2:{ rewrite Hle in St. discriminate. }
     cbn [pc_ok] in Hpc. rewrite (Hpc h d eq_refl) in St.
     destruct (handle_put H (ks s) h d) as [r k'] eqn:Ehp. inversion St; subst.
     eapply inv_same; [exact I|exact En|reflexivity|reflexivity|reflexivity| |].
@@ -371,13 +398,15 @@ Qed.
 
 End INV.
 
-Lemma init_inv H k bufs m reqs : NoDup bufs -> Inv H k reqs (init_pool k bufs m reqs false).
+Lemma init_inv_gen H k bufs m reqs sp : NoDup bufs -> Inv H k reqs (init_pool_gen k bufs m reqs false false false sp).
 Proof.
   intros Hn.
   assert (W_only : forall i o p, nth_error (map (fun o => (o, W)) reqs) i = Some (o, p) -> p = W).
   { intros i o p E. apply nth_error_In in E. apply in_map_iff in E. destruct E as (x & X & _).
     inversion X; reflexivity. }
-  constructor; unfold init_pool; cbn [early free thr lin ks mem].
+  constructor; unfold init_pool_gen; cbn [early lenient twice splice free thr lin ks mem].
+  - reflexivity.
+  - reflexivity.
   - reflexivity.
   - exact Hn.
   - intros i o p b E Hh. apply W_only in E. subst. discriminate.
@@ -389,9 +418,16 @@ Proof.
   - reflexivity.
 Qed.
 
+Lemma init_inv H k bufs m reqs : NoDup bufs -> Inv H k reqs (init_pool k bufs m reqs false).
+Proof. apply init_inv_gen. Qed.
+
+Lemma reach_inv_gen H k bufs m reqs sp ls s :
+  NoDup bufs -> steps H (init_pool_gen k bufs m reqs false false false sp) ls = Some s -> Inv H k reqs s.
+Proof. intros Hn St. eapply steps_inv; [apply init_inv_gen; exact Hn|exact St]. Qed.
+
 Lemma reach_inv H k bufs m reqs ls s :
   NoDup bufs -> steps H (init_pool k bufs m reqs false) ls = Some s -> Inv H k reqs s.
-Proof. intros Hn St. eapply steps_inv; [apply init_inv; exact Hn|exact St]. Qed.
+Proof. apply reach_inv_gen. Qed.
 
 (* Main theorem.  From any initial state (any volumes, any set of distinct buffers holding anything, any
    list of requests, all waiting), after ANY sequence of scheduler and environment steps:
@@ -472,3 +508,98 @@ Proof.
   vm_compute. discriminate.
 Qed.
 
+
+(* ------------------------------------------------------------------ *)
+(* uploads that do not arrive completely; the pool hands a buffer to one request at a time *)
+
+(* the main theorem for every representation [sp] of what a short read leaves in the buffer *)
+Theorem pool_linearizable_any_splice : forall (H : content -> string) k bufs m reqs sp ls s,
+  NoDup bufs ->
+  steps H (init_pool_gen k bufs m reqs false false false sp) ls = Some s ->
+  map fst (run H k (lin_ops s)) = lin_resps s /\
+  ks s = run_state H k (lin_ops s) /\
+  (forall i o r, nth_error (thr s) i = Some (o, Fin r) -> In (i, o, r) (lin s)) /\
+  (forall i o r, In (i, o, r) (lin s) -> nth_error reqs i = Some o).
+Proof.
+  intros H k bufs m reqs sp ls s Hn St. pose proof (reach_inv_gen _ _ _ _ _ _ _ _ Hn St) as I.
+  split; [exact (inv_run _ _ _ _ I)|].
+  split; [exact (inv_ks _ _ _ _ I)|].
+  split.
+  - intros i o r E. exact (inv_pc _ _ _ _ I _ _ _ E).
+  - intros i o r X. apply (inv_lin _ _ _ _ I _ _ _ X).
+Qed.
+
+(* "a buffer is handed to at most one request at a time": in every reachable state the pool holds no
+   buffer twice, a buffer held by a request is not in the pool, and two requests never hold the same
+   buffer -- whatever requests are in flight, failed uploads included *)
+Theorem pool_buffer_exclusive : forall (H : content -> string) k bufs m reqs sp ls s,
+  NoDup bufs ->
+  steps H (init_pool_gen k bufs m reqs false false false sp) ls = Some s ->
+  NoDup (free s) /\
+  (forall i o p b, nth_error (thr s) i = Some (o, p) -> holds p = Some b -> ~ In b (free s)) /\
+  (forall i j o p o' p' b, i <> j -> nth_error (thr s) i = Some (o, p) -> nth_error (thr s) j = Some (o', p') ->
+                           holds p = Some b -> holds p' = Some b -> False).
+Proof.
+  intros H k bufs m reqs sp ls s Hn St. pose proof (reach_inv_gen _ _ _ _ _ _ _ _ Hn St) as I.
+  split; [exact (inv_nodup _ _ _ _ I)|]. split; [exact (inv_notfree _ _ _ _ I)|exact (inv_distinct _ _ _ _ I)].
+Qed.
+
+(* a PUT whose body does not arrive completely is never acknowledged, whatever the buffer held before
+   and whatever else is in flight: its answer is 413, 503 or 500 *)
+Theorem pool_short_put_never_acked : forall (H : content -> string) k bufs m reqs sp ls s i h d n r,
+  NoDup bufs ->
+  steps H (init_pool_gen k bufs m reqs false false false sp) ls = Some s ->
+  nth_error (thr s) i = Some (PutShort h d n, Fin r) ->
+  code r = 413 \/ code r = 503 \/ code r = 500.
+Proof.
+  intros H k bufs m reqs sp ls s i h d n r Hn St E. pose proof (reach_inv_gen _ _ _ _ _ _ _ _ Hn St) as I.
+  pose proof (inv_pc _ _ _ _ I _ _ _ E) as P. cbn [pc_ok] in P.
+  destruct (inv_lin _ _ _ _ I _ _ _ P) as (_ & k' & ->). cbn [handle fst]. unfold handle_put_short.
+  destruct (BlockSize <? n); [left; reflexivity|]. destruct (writable (vols k')); [right; left|right; right]; reflexivity.
+Qed.
+
+(* Regression witness about the VARIANT lenient only (handlePUT goes on to PutBlock after a short read):
+   after a complete PUT of "aaa1" the next request gets the same buffer; its body stops early (the bytes
+   that arrived hash to something else) and the stale tail completes the block: acknowledged. *)
+Definition ex_short_sched : list lbl := [Run 0 0; Run 0 0; Run 0 0; Run 0 0; Run 1 0; Run 1 0; Run 1 0; Run 1 0].
+Theorem pool_lenient_short_read_refuted :
+  exists s r,
+    steps ex_pool_H (init_pool_gen {| vols := ex_pool_vols; counter := 0 |} [0%nat] (fun _ => {| cid := 9; clen := 0 |})
+                       [Put "aaa1"%string {| cid := 1; clen := 4 |}; PutShort "aaa1"%string {| cid := 7; clen := 2 |} 4]
+                       false true false (fun _ old _ => old)) ex_short_sched = Some s /\
+    nth_error (thr s) 1 = Some (PutShort "aaa1"%string {| cid := 7; clen := 2 |} 4, Fin r) /\ code r = 200 /\
+    ex_pool_H {| cid := 7; clen := 2 |} <> "aaa1"%string.
+Proof.
+  eexists. eexists.
+  split; [vm_compute; reflexivity|].
+  split; [vm_compute; reflexivity|].
+  split; [vm_compute; reflexivity|].
+  vm_compute. discriminate.
+Qed.
+
+(* Regression witness about the VARIANT twice only (the failed-read branch gives the buffer back and the
+   handler gives it back again on return): after one failed upload the pool hands buffer 0 to two requests
+   at the same time, and a GET of "aaa1" answers 200 with the bytes another request uploaded meanwhile. *)
+Definition ex_twice_sched : list lbl :=
+  [Run 0 0; Run 0 0; Run 0 0;            (* the failed upload: takes 0, read error, returns *)
+   Run 1 0; Run 1 0;                     (* GET aaa1 takes 0, GetBlock fills it *)
+   Run 2 0; Run 2 0;                     (* PUT bbb2 takes 0 too, reads its body into it *)
+   Run 1 0; Run 1 0].                    (* GET writes what the buffer holds now *)
+Theorem pool_double_release_refuted :
+  exists s r c p2,
+    steps ex_pool_H (init_pool_gen {| vols := ex_pool_vols; counter := 0 |} [0%nat; 1%nat] (fun _ => {| cid := 9; clen := 0 |})
+                       [PutShort "aaa1"%string {| cid := 7; clen := 2 |} 4; Get "aaa1"%string; Put "bbb2"%string {| cid := 2; clen := 4 |}]
+                       false false true (fun d _ _ => d)) ex_twice_sched = Some s /\
+    nth_error (thr s) 1 = Some (Get "aaa1"%string, Fin r) /\ code r = 200 /\ body r = Some c /\ ex_pool_H c <> "aaa1"%string /\
+    nth_error (thr s) 2 = Some (Put "bbb2"%string {| cid := 2; clen := 4 |}, p2) /\ holds p2 = Some 0%nat /\ In 0%nat (free s).
+Proof.
+  eexists. eexists. eexists. eexists.
+  split; [vm_compute; reflexivity|].
+  split; [vm_compute; reflexivity|].
+  split; [vm_compute; reflexivity|].
+  split; [vm_compute; reflexivity|].
+  split; [vm_compute; discriminate|].
+  split; [vm_compute; reflexivity|].
+  split; [vm_compute; reflexivity|].
+  vm_compute. tauto.
+Qed.
